@@ -9,7 +9,7 @@
    Level: partial.  Not proved (see the end of the file): eventual delivery, FIFO under in-order
    reports, the put/get handshake across two processes. *)
 From Coq Require Import List Arith Bool ZArith Lia Permutation Sorted.
-From PV Require Import Base.Tac CE.CEDefs CE.CEAmProofs CE.CEWinProofs CE.CEDynProofs CE.CETagProofs.
+From PV Require Import Base.Tac CE.CEDefs CE.CEAmProofs CE.CEWinProofs CE.CELiveProofs CE.CEDynProofs CE.CETagProofs.
 Import ListNotations.
 
 (* ------------------------------------------------------------------ *)
@@ -76,6 +76,24 @@ Proof.
   intros. apply fold_left_inv; [intros; now apply step_windows|now apply init_windows].
 Qed.
 Print Assumptions C14_windows_invariant.
+
+(* one tag's window under any history of callbacks (WServe o: the receive in slot o is served and
+   restarted, in any order — completions out of posting order included) and refills: no pool entry
+   ever occupies two slots, for every posted/tested pair *)
+Theorem C14_window_no_double : forall l w, Wok w -> NoDup (somes (w_slots (fold_left wstep l w))).
+Proof.
+  intros l w H.
+  assert (Hok : Wok (fold_left wstep l w)) by (apply fold_left_inv; auto; intros; now apply wstep_ok).
+  destruct Hok as (_ & _ & _ & Hnd & _). exact Hnd.
+Qed.
+Print Assumptions C14_window_no_double.
+
+(* the rotation is fair: once req_count pool entries have been moved into the window (each served
+   slot is refilled by one), every posted receive has been in the window at some point *)
+Theorem C14_window_eventually : forall l w i,
+  Wok w -> i < w_P w -> w_P w <= picks w l -> ever_in i w l.
+Proof. exact window_eventually. Qed.
+Print Assumptions C14_window_eventually.
 
 (* ------------------------------------------------------------------ *)
 (** The dynamic region and the pending FIFOs *)
@@ -158,7 +176,7 @@ Print Assumptions C14_next_tag_distinct.
 Local Close Scope Z_scope.
 
 (* Not proved.
-   - Liveness: a completed receive outside the tested window is eventually brought into it.  The
+   - Liveness beyond C14_window_eventually (which bounds the wait by req_count served slots): the
      oldest started receive is always in the window after a refill (argument in notes/findings/C14-fifo.md;
      explored exhaustively for posted <= 6 by /verif/notes/findings/C14-bfs.py), not formalised.
    - C14_am_fifo_inorder_partial (full statement): if every AReport names a prefix 0..n-1 of the
